@@ -68,6 +68,25 @@
 (*        codec -> CodecLaw;     doc -> RoundTrip                          *)
 (*   DotAnyIndent = TRUE  (decoder turns every '<blanks>.' into '')        *)
 (*        codec -> CodecLaw (the line ' .' of a text)                      *)
+(*                                                                         *)
+(* NO STATE BETWEEN CALLS.  The property quantifies over every document    *)
+(* whatever was built, dumped or parsed before.  The document layer        *)
+(* therefore has a second phase: after the round trip of a (context-only)  *)
+(* document the RE-PARSED document is edited once (Edits: files /          *)
+(* copyright / license of one paragraph -- the license keeps its synopsis  *)
+(* and changes its text -- or one more add_* call) and makes a second      *)
+(* round trip; ed records the edit, the document before it and memo =      *)
+(* everything the first round trip produced (the dumped text, the          *)
+(* License decoded for each first line) -- a history variable that the     *)
+(* correct design never reads (DumpM / LicFromM ignore it).  Negative      *)
+(* controls that make a design READ it:                                    *)
+(*   StaleDump = TRUE         (the document caches its dump text)          *)
+(*        doc -> RoundTrip (the second dump describes the old document)    *)
+(*   LicMemoBySynopsis = TRUE (License.from_str memoised by first line)    *)
+(*        doc -> RoundTrip (the old license text comes back)               *)
+(*   ParseMemoAliased = TRUE  (parse_multiline_as_lines returns the list   *)
+(*        it returned before, which the caller has meanwhile changed)      *)
+(*        codec -> CodecRepeat                                             *)
 (* Not modelled: the characters inside a payload (sampled by the harness), *)
 (* trailing white space, comments, PGP armor (spec/Deb822Reader.tla).      *)
 (***************************************************************************)
@@ -82,14 +101,16 @@ CONSTANTS Mode,            \* "codec" | "doc" | "trace"
           CopyMax, CopyAlpha,         \* doc: copyright text: "P" then <= CopyMax-1 symbols of CopyAlpha
           BigTextMax, BigTextAlpha,   \* doc: license text of the focus paragraph
           Emit,            \* TRUE: print CASE lines
-          NoDotEscape, DecoderStrips, DotAnyIndent   \* negative controls
+          NoDotEscape, DecoderStrips, DotAnyIndent,  \* negative controls
+          StaleDump, LicMemoBySynopsis, ParseMemoAliased   \* negative controls: state kept between calls
 
 VARIABLES lst,             \* codec: the list of symbols built so far
           hk,              \* doc: header kind
           paras,           \* doc: the document body (sequence of paragraphs)
           hist,            \* doc: the add_* calls made, in call order (paragraphs)
-          big              \* doc: the focus paragraph has been used
-vars == <<lst, hk, paras, hist, big>>
+          big,             \* doc: the focus paragraph has been used
+          ed               \* doc: <<>> or <<[e, pre, memo]>>: the edit made after the first round trip
+vars == <<lst, hk, paras, hist, big, ed>>
 
 ----------------------------------------------------------------------------
 \* lines and strings
@@ -221,30 +242,41 @@ Has(fs, k)  == \E i \in 1..Len(fs) : fs[i].k = k
 GetV(fs, k) == fs[CHOOSE i \in 1..Len(fs) : fs[i].k = k].v
 
 \* Copyright(lines, strict=True) and the getters of the paragraph classes
-LoadHeader(fs) == Hdr(IF Has(fs, "Upstream-Name") THEN <<GetV(fs, "Upstream-Name")>> ELSE <<>>,
+\* what earlier calls left behind (never read by the correct design)
+NoMemo == [dump |-> <<>>, lics |-> {}]
+LicFromM(m, v) == IF LicMemoBySynopsis /\ \E c \in m.lics : c.key = v[1]
+                  THEN (CHOOSE c \in m.lics : c.key = v[1]).lic
+                  ELSE LicFrom(v)
+
+LoadHeaderM(m, fs) == Hdr(IF Has(fs, "Upstream-Name") THEN <<GetV(fs, "Upstream-Name")>> ELSE <<>>,
                       IF Has(fs, "Upstream-Contact") THEN LineFrom(GetV(fs, "Upstream-Contact")) ELSE <<>>,
-                      IF Has(fs, "License") THEN <<LicFrom(GetV(fs, "License"))>> ELSE <<>>)
-LoadPara(fs) ==
+                      IF Has(fs, "License") THEN <<LicFromM(m, GetV(fs, "License"))>> ELSE <<>>)
+LoadParaM(m, fs) ==
    IF Has(fs, "Files") THEN
       LET pats == SpaceFrom(GetV(fs, "Files"))
           bad  == ~Has(fs, "Copyright") \/ ~Has(fs, "License") \/ pats = <<>>
                   \/ (Has(fs, "License") /\ ParseErr(GetV(fs, "License")))
       IN [err |-> bad,
           p   |-> IF bad THEN NoPara
-                  ELSE FilesPara(pats, GetV(fs, "Copyright"), LicFrom(GetV(fs, "License")))]
+                  ELSE FilesPara(pats, GetV(fs, "Copyright"), LicFromM(m, GetV(fs, "License")))]
    ELSE IF Has(fs, "License") THEN
       LET bad == ParseErr(GetV(fs, "License"))
-      IN [err |-> bad, p |-> IF bad THEN NoPara ELSE LicensePara(LicFrom(GetV(fs, "License")))]
+      IN [err |-> bad, p |-> IF bad THEN NoPara ELSE LicensePara(LicFromM(m, GetV(fs, "License")))]
    ELSE [err |-> TRUE, p |-> NoPara]
 
 Failed(e) == [err |-> e, hdr |-> Hdr(<<>>, <<>>, <<>>), paras |-> <<>>]
-Load(ls) ==
+LoadM(m, ls) ==
    LET ps == ReadParas(ls) IN
    IF ps = <<>> \/ ~Has(ps[1], "Format") THEN Failed("NotMachineReadableError")
-   ELSE LET body == [i \in 1..(Len(ps) - 1) |-> LoadPara(ps[i + 1])]
+   ELSE LET body == [i \in 1..(Len(ps) - 1) |-> LoadParaM(m, ps[i + 1])]
             hbad == Has(ps[1], "License") /\ ParseErr(GetV(ps[1], "License"))
         IN IF hbad \/ \E i \in 1..Len(body) : body[i].err THEN Failed("MachineReadableFormatError")
-           ELSE [err |-> "none", hdr |-> LoadHeader(ps[1]), paras |-> [i \in 1..Len(body) |-> body[i].p]]
+           ELSE [err |-> "none", hdr |-> LoadHeaderM(m, ps[1]), paras |-> [i \in 1..Len(body) |-> body[i].p]]
+Load(ls) == LoadM(NoMemo, ls)
+DumpM(m, h, ps) == IF StaleDump /\ m.dump # <<>> THEN m.dump ELSE DumpDoc(h, ps)
+MemoAfter(h, ps) == [dump |-> DumpDoc(h, ps),
+                     lics |-> {[key |-> x.syn, lic |-> x] :
+                                 x \in {ps[i].lic : i \in 1..Len(ps)} \cup {h.lic[j] : j \in 1..Len(h.lic)}}]
 
 \* Copyright.add_files_paragraph / add_license_paragraph
 LastFiles(ps) == LET S == {i \in 1..Len(ps) : ps[i].kind = "Files"}
@@ -252,6 +284,16 @@ LastFiles(ps) == LET S == {i \in 1..Len(ps) : ps[i].kind = "Files"}
 PutAfter(ps, i, x) == SubSeq(ps, 1, i) \o <<x>> \o SubSeq(ps, i + 1, Len(ps))
 AddPara(ps, p) == IF p.kind = "Files" THEN PutAfter(ps, LastFiles(ps), p) ELSE Append(ps, p)
 Build(ops) == FoldLeft(AddPara, <<>>, ops)
+
+\* an edit of a document through the setters of a paragraph / one more add_* call ("at" = number of
+\* paragraphs in front of the added one)
+EditRec(kind, i, at, pats, copy, lic, para) ==
+   [kind |-> kind, i |-> i, at |-> at, pats |-> pats, copy |-> copy, lic |-> lic, para |-> para]
+ApplyEdit(ps, e) == CASE e.kind = "files" -> [ps EXCEPT ![e.i].pats = e.pats]
+                      [] e.kind = "copy"  -> [ps EXCEPT ![e.i].copy = e.copy]
+                      [] e.kind = "lic"   -> [ps EXCEPT ![e.i].lic = e.lic]
+                      [] e.kind = "add"   -> PutAfter(ps, e.at, e.para)
+ApplyEdits(ps, es) == FoldLeft(ApplyEdit, ps, es)
 
 ----------------------------------------------------------------------------
 \* the structure spaces
@@ -280,6 +322,16 @@ BigShapes == {FShape(MaxPat, cp, tx) : cp \in BigCopys, tx \in BigTexts}
              \cup {FShape(np, <<"P">>, <<>>) : np \in BigPats}
              \cup {LShape(tx) : tx \in BigTexts}
 
+NoLic == Lic(EmptyLn, <<EmptyLn>>)
+FilesIdx(ps) == {i \in 1..Len(ps) : ps[i].kind = "Files"}
+Edits(ps) ==
+   {EditRec("files", i, 0, <<Code(9, 1, 1), Code(9, 1, 2)>>, <<>>, NoLic, NoPara) : i \in FilesIdx(ps)}
+   \cup {EditRec("copy", i, 0, <<>>, MkText(9, 2, <<"P", "I">>), NoLic, NoPara) : i \in FilesIdx(ps)}
+   \cup {EditRec("lic", i, 0, <<>>, <<>>, Lic(ps[i].lic.syn, Join(MkText(9, 4, <<"P", "E", "ID">>))), NoPara) :
+            i \in 1..Len(ps)}
+   \cup {EditRec("add", 0, LastFiles(ps), <<>>, <<>>, NoLic, MkPara(9, FShape(1, <<"P">>, <<"I">>))),
+         EditRec("add", 0, Len(ps), <<>>, <<>>, NoLic, MkPara(9, LShape(<<"P">>)))}
+
 HdrOf(kind) ==
    LET nm  == <<<<Ln(0, "txt", <<Code(0, 5, 0)>>)>>>>
        e(j) == <<Code(0, 6, j)>>
@@ -294,21 +346,27 @@ HdrOf(kind) ==
 ----------------------------------------------------------------------------
 \* state spaces
 
-Init == /\ lst = <<>> /\ paras = <<>> /\ hist = <<>> /\ big = FALSE
+Init == /\ lst = <<>> /\ paras = <<>> /\ hist = <<>> /\ big = FALSE /\ ed = <<>>
         /\ hk \in (IF Mode = "doc" THEN HdrKinds ELSE {"min"})
 
 CodecNext == /\ Mode = "codec" /\ Len(lst) < MaxLen
              /\ \E s \in Alphabet : lst' = Append(lst, s)
-             /\ UNCHANGED <<hk, paras, hist, big>>
-DocNext   == /\ Mode = "doc" /\ Len(hist) < MaxParas
+             /\ UNCHANGED <<hk, paras, hist, big, ed>>
+DocNext   == /\ Mode = "doc" /\ Len(hist) < MaxParas /\ ed = <<>>
              /\ \E b \in (IF big THEN {FALSE} ELSE BOOLEAN) :
                   \E sh \in (IF b THEN BigShapes \ SmallShapes ELSE SmallShapes) :
                      LET p == MkPara(Len(hist) + 1, sh)
                      IN /\ hist' = Append(hist, p)
                         /\ paras' = AddPara(paras, p)
                         /\ big' = (big \/ b)
-             /\ UNCHANGED <<lst, hk>>
-Next == CodecNext \/ DocNext
+             /\ UNCHANGED <<lst, hk, ed>>
+\* second phase: one edit of the re-parsed (context-only) document
+DocEdit   == /\ Mode = "doc" /\ ed = <<>> /\ ~big
+             /\ \E e \in Edits(paras) :
+                  /\ paras' = ApplyEdit(paras, e)
+                  /\ ed' = <<[e |-> e, pre |-> paras, memo |-> MemoAfter(HdrOf(hk), paras)]>>
+             /\ UNCHANGED <<lst, hk, hist, big>>
+Next == CodecNext \/ DocNext \/ DocEdit
 Spec == Init /\ [][Next]_vars
 
 ----------------------------------------------------------------------------
@@ -322,10 +380,17 @@ CodecStableOf(ls)  == FormatLines(ParseLines(FormatLines(ls))) = FormatLines(ls)
 \* as the continuation of a field whose first line is the synopsis: accepted by Deb822 and unsplittable
 EncodedSafeOf(ls)  == LET v == FormatLines(<<Ln(0, "txt", <<0>>)>> \o ls) IN Accepts(v) /\ Unsplittable(v)
 
+\* a second call on the same list, after the caller changed the list the first call returned
+CodecRepeatOf(ls)  == LET first     == ParseLines(FormatLines(ls))
+                          scribbled == Append(first, Ln(0, "txt", <<0>>))
+                          second    == IF ParseMemoAliased THEN scribbled ELSE ParseLines(FormatLines(ls))
+                      IN second = Normalise(ls)
+
 CodecNormal == Mode = "codec" => CodecNormalOf(Lines(lst))
 CodecLaw    == Mode = "codec" => CodecLawOf(Lines(lst))
 CodecStable == Mode = "codec" => CodecStableOf(Lines(lst))
 EncodedSafe == Mode = "codec" => EncodedSafeOf(Lines(lst))
+CodecRepeat == Mode = "codec" => CodecRepeatOf(Lines(lst))
 
 BCode(x)   == IF x.b = "none" THEN 0 ELSE IF x.b = "dot" THEN 1 ELSE 2
 EncLn(x)   == <<10 * x.ind + BCode(x)>> \o x.id            \* compact form of a line in CASE lines
@@ -338,7 +403,8 @@ CodecEmit == Emit => PrintT(<<"CASE", ToJson([l   |-> lst,
                                               dom |-> CodecDomain(Lines(lst))])>>)
 CodecProps == Mode = "codec" =>
                  LET ls == Lines(lst)
-                 IN CodecNormalOf(ls) /\ CodecLawOf(ls) /\ CodecStableOf(ls) /\ EncodedSafeOf(ls) /\ CodecEmit
+                 IN /\ CodecNormalOf(ls) /\ CodecLawOf(ls) /\ CodecStableOf(ls) /\ EncodedSafeOf(ls)
+                    /\ CodecRepeatOf(ls) /\ CodecEmit
 
 ----------------------------------------------------------------------------
 \* document properties (evaluated for every header kind and build history)
@@ -354,9 +420,11 @@ StableOf(h, ps, L)    == DumpDoc(L.hdr, L.paras) = DumpDoc(h, ps)
 
 BuildAccepted == Mode = "doc" => BuildAcceptedOf(HdrOf(hk), paras)
 FilesFirst    == Mode = "doc" => FilesFirstOf(paras)
-RoundTrip     == Mode = "doc" => RoundTripOf(HdrOf(hk), paras, Load(DumpDoc(HdrOf(hk), paras)))
-Stable        == Mode = "doc" => StableOf(HdrOf(hk), paras, Load(DumpDoc(HdrOf(hk), paras)))
-HistoryKept   == Mode = "doc" => (paras = Build(hist) /\ Len(paras) = Len(hist))
+Memo          == IF ed = <<>> THEN NoMemo ELSE ed[1].memo
+RoundTrip     == Mode = "doc" => RoundTripOf(HdrOf(hk), paras, LoadM(Memo, DumpM(Memo, HdrOf(hk), paras)))
+Stable        == Mode = "doc" => StableOf(HdrOf(hk), paras, LoadM(Memo, DumpM(Memo, HdrOf(hk), paras)))
+HistoryKept   == Mode = "doc" => IF ed = <<>> THEN paras = Build(hist) /\ Len(paras) = Len(hist)
+                                 ELSE ed[1].pre = Build(hist) /\ paras = ApplyEdit(ed[1].pre, ed[1].e)
 
 EncLic(l)  == [s |-> EncLn(l.syn), t |-> EncStr(l.text)]
 EncPara(p) == [k |-> p.kind, p |-> p.pats, c |-> EncStr(p.copy), l |-> EncLic(p.lic)]
@@ -364,15 +432,20 @@ EncHdr(h)  == [n |-> IF h.name = <<>> THEN <<>> ELSE <<EncStr(h.name[1])>>,
                u |-> h.uc,
                l |-> IF h.lic = <<>> THEN <<>> ELSE <<EncLic(h.lic[1])>>]
 EncDL(dl)  == [f |-> dl.k, x |-> EncLn(dl.x)]
+EncEdit(e) == [kind |-> e.kind, i |-> e.i, at |-> e.at, p |-> e.pats, c |-> EncStr(e.copy), l |-> EncLic(e.lic),
+               a |-> EncPara(e.para)]
 DocEmit(h, d) == Emit => PrintT(<<"CASE", ToJson([hk   |-> hk,
                                                   hdr  |-> EncHdr(h),
                                                   ops  |-> [i \in 1..Len(hist) |-> EncPara(hist[i])],
                                                   doc  |-> [i \in 1..Len(paras) |-> EncPara(paras[i])],
+                                                  edit |-> IF ed = <<>> THEN <<>> ELSE <<EncEdit(ed[1].e)>>,
+                                                  pre  |-> IF ed = <<>> THEN <<>>
+                                                           ELSE [i \in 1..Len(ed[1].pre) |-> EncPara(ed[1].pre[i])],
                                                   dump |-> [i \in 1..Len(d) |-> EncDL(d[i])]])>>)
 DocProps == Mode = "doc" =>
                LET h == HdrOf(hk)
-                   d == DumpDoc(h, paras)
-                   L == Load(d)
+                   d == DumpM(Memo, h, paras)
+                   L == LoadM(Memo, d)
                IN /\ BuildAcceptedOf(h, paras) /\ FilesFirstOf(paras)
                   /\ RoundTripOf(h, paras, L) /\ StableOf(h, paras, L)
                   /\ DocEmit(h, d)
